@@ -306,6 +306,9 @@ func (c *AsyncLogger) Append(e *Event) {
 // Write enqueues raw bytes into the buffer.
 // Behavior on full buffer depends on BufferFullPolicy.
 func (c *AsyncLogger) Write(b []byte) {
+	// The bytes are consumed later by the worker goroutine, while the
+	// caller is free to reuse its buffer as soon as Write returns.
+	b = append([]byte(nil), b...)
 	select {
 	case c.buf <- b:
 	default:
